@@ -3,7 +3,6 @@ package sim
 import (
 	"bytes"
 	"context"
-	"errors"
 	"fmt"
 	"io"
 
@@ -166,9 +165,10 @@ func (s *c12) Final(w *World) *Violation {
 	// R2: every undecodable message sent to the real node was reported as a receive error
 	wantErrA := 0
 	for _, wm := range w.Net.WireFor("M", "A") {
-		// bytes that merely end early (the length prefix promises more than the
-		// stream delivers before it is closed) are an ended stream, not a malformed message
-		if wm.Err != nil && !errors.Is(wm.Err, io.EOF) && !errors.Is(wm.Err, io.ErrUnexpectedEOF) {
+		// a stream that ends where a message could have ended (nothing, or nothing after a
+		// complete length prefix: plain io.EOF) is an ended stream, not a malformed message;
+		// one that ends inside the prefix or inside the body (io.ErrUnexpectedEOF) is malformed
+		if wm.Err != nil && wm.Err != io.EOF {
 			wantErrA++
 		}
 	}
